@@ -445,7 +445,10 @@ def finish(chk, classify, write_evidence=True):
     known_hits = {}
     unknown = []
     for f in chk.oracle_failures:
-        kid = classify(f) if classify else None
+        try:
+            kid = classify(f) if classify else None
+        except Exception:  # noqa  (a classifier that cannot judge a failure leaves it unlisted, i.e. reported)
+            kid = None
         if kid is not None and kid in known:
             known_hits.setdefault(kid, []).append(f)
         else:
